@@ -122,3 +122,26 @@ def model_extract_op(examples, opts, form='list'):
          'tag': bool(opts.get('tag')), 'dialect': DIALECT_ID[opts.get('dialect', 'portable')],
          'max_patterns': opts.get('max_patterns'), 'min_strings': opts.get('min_strings_per_pattern', 1)}
     return {'op': 'rx.extract', 'table': char_table(examples), 'opts': o, 'items': items}
+
+
+def nosampling(examples, opts, size):
+    """True when extraction takes the batch path (the one the Lean model covers)"""
+    if any(s is not None and '\x00' in s for s in examples):
+        return False
+    if not size:
+        return True
+    return len(set(kept_examples(examples, opts))) <= size['do_all']
+
+
+def impl_rex(examples, opts, size, seed, form):
+    res, exc, _, _ = run_extract(examples, opts, size, seed, form)
+    return {'exc': type(exc).__name__} if exc is not None else {'rex': list(res)}
+
+
+def canon_rex(outs):
+    return [{'rex': o['ok']['rex']} if 'ok' in o else {'exc': o.get('exc')} for o in outs]
+
+
+RX_LEMMAS = ['TddaVerif.Props.C03.Lemmas.' + t for t in [
+    'batch_extract_sound', 'extract_sound', 'batch_pattern_has_witness', 'batch_count_le', 'extract_subset_batch',
+    'extract_empty']]
